@@ -211,6 +211,10 @@ func (d *Directory) handleBind(t TestingT) func(w *gldap.ResponseWriter, r *glda
 			// if it's not a simple auth request, then the bind failed...
 			return
 		}
+		// the directory's state is shared with every other handler and with
+		// the Set* functions
+		d.mu.Lock()
+		defer d.mu.Unlock()
 		if m.Password == "" && d.allowAnonymousBind {
 			resp.SetResultCode(gldap.ResultSuccess)
 			return
@@ -224,8 +228,6 @@ func (d *Directory) handleBind(t TestingT) func(w *gldap.ResponseWriter, r *glda
 				if len(values) > 0 && string(m.Password) == values[0] {
 					resp.SetResultCode(gldap.ResultSuccess)
 					if d.controls != nil {
-						d.mu.Lock()
-						defer d.mu.Unlock()
 						resp.SetControls(d.controls...)
 					}
 					return
@@ -301,6 +303,20 @@ func (d *Directory) handleSearchGeneric(t TestingT) func(w *gldap.ResponseWriter
 		}
 		d.logSearchRequest(m)
 
+		// the directory's state is read under d.mu; the results are written
+		// after it is released, so that a client that is slow to read them
+		// holds up nobody else
+		var results []*gldap.SearchResponseEntry
+		defer func() {
+			for _, result := range results {
+				if err := w.Write(result); err != nil {
+					d.logger.Error("error writing result: %s", "op", op, "err", err)
+					return
+				}
+			}
+		}()
+		d.mu.Lock()
+		defer d.mu.Unlock()
 		filter := m.Filter
 
 		// if our search base is the base userDN, we're searching for a single
@@ -325,16 +341,8 @@ func (d *Directory) handleSearchGeneric(t TestingT) func(w *gldap.ResponseWriter
 			sid = strings.TrimSuffix(sid, ">")
 			for _, g := range d.tokenGroups[sid] {
 				d.logger.Debug("found tokenGroup", "op", op, "group DN", g.DN)
-				result := r.NewSearchResponseEntry(g.DN)
-				for _, attr := range g.Attributes {
-					result.AddAttribute(attr.Name, attr.Values)
-				}
+				results = append(results, searchResult(r, g))
 				foundEntries += 1
-				err = w.Write(result)
-				if err != nil {
-					d.logger.Error("error writing result: %s", "op", op, "err", err)
-					return
-				}
 			}
 			d.logger.Debug("found entries", "op", op, "count", foundEntries)
 			res.SetResultCode(gldap.ResultSuccess)
@@ -365,25 +373,25 @@ func (d *Directory) handleSearchGeneric(t TestingT) func(w *gldap.ResponseWriter
 		if foundEntries > 0 {
 			d.logger.Debug("found entries", "op", op, "count", foundEntries)
 			for _, e := range entries {
-				result := r.NewSearchResponseEntry(e.DN)
-				for _, attr := range e.Attributes {
-					result.AddAttribute(attr.Name, attr.Values)
-				}
+				results = append(results, searchResult(r, e))
 				foundEntries += 1
-				err := w.Write(result)
-				if err != nil {
-					d.logger.Error("error writing result: %s", "op", op, "err", err)
-					return
-				}
 			}
 			if d.controls != nil {
-				d.mu.Lock()
-				defer d.mu.Unlock()
 				res.SetControls(d.controls...)
 			}
 			res.SetResultCode(gldap.ResultSuccess)
 		}
 	}
+}
+
+// searchResult builds the search result for an entry. The caller holds d.mu;
+// the values are copied because the result is written after d.mu is released.
+func searchResult(r *gldap.Request, e *gldap.Entry) *gldap.SearchResponseEntry {
+	result := r.NewSearchResponseEntry(e.DN)
+	for _, attr := range e.Attributes {
+		result.AddAttribute(attr.Name, slices.Clone(attr.Values))
+	}
+	return result
 }
 
 func (d *Directory) handleSearchGroups(t TestingT) func(w *gldap.ResponseWriter, r *gldap.Request) {
@@ -408,6 +416,18 @@ func (d *Directory) handleSearchGroups(t TestingT) func(w *gldap.ResponseWriter,
 		}
 		d.logSearchRequest(m)
 
+		// written after d.mu is released (see handleSearchGeneric)
+		var results []*gldap.SearchResponseEntry
+		defer func() {
+			for _, result := range results {
+				if err := w.Write(result); err != nil {
+					d.logger.Error("error writing result: %s", "op", op, "err", err)
+					return
+				}
+			}
+		}()
+		d.mu.Lock()
+		defer d.mu.Unlock()
 		_, entries := d.findMembers(m.Filter)
 		foundEntries := len(entries)
 
@@ -426,22 +446,12 @@ func (d *Directory) handleSearchGroups(t TestingT) func(w *gldap.ResponseWriter,
 
 		if foundEntries > 0 {
 			for _, e := range entries {
-				result := r.NewSearchResponseEntry(e.DN)
-				for _, attr := range e.Attributes {
-					result.AddAttribute(attr.Name, attr.Values)
-				}
+				results = append(results, searchResult(r, e))
 				foundEntries += 1
-				err = w.Write(result)
-				if err != nil {
-					d.logger.Error("error writing result: %s", "op", op, "err", err)
-					return
-				}
 			}
 			d.logger.Debug("found entries", "op", op, "count", foundEntries)
 
 			if d.controls != nil {
-				d.mu.Lock()
-				defer d.mu.Unlock()
 				res.SetControls(d.controls...)
 			}
 			res.SetResultCode(gldap.ResultSuccess)
@@ -471,28 +481,30 @@ func (d *Directory) handleSearchUsers(t TestingT) func(w *gldap.ResponseWriter, 
 		}
 		d.logSearchRequest(m)
 
+		// written after d.mu is released (see handleSearchGeneric)
+		var results []*gldap.SearchResponseEntry
+		defer func() {
+			for _, result := range results {
+				if err := w.Write(result); err != nil {
+					d.logger.Error("error writing result: %s", "op", op, "err", err)
+					return
+				}
+			}
+		}()
+		d.mu.Lock()
+		defer d.mu.Unlock()
 		var foundEntries int
 		_, _, entries := find(d.t, m.Filter, d.users)
 		if len(entries) == 0 {
 			return
 		}
 		for _, e := range entries {
-			result := r.NewSearchResponseEntry(e.DN)
-			for _, attr := range e.Attributes {
-				result.AddAttribute(attr.Name, attr.Values)
-			}
+			results = append(results, searchResult(r, e))
 			foundEntries += 1
-			err := w.Write(result)
-			if err != nil {
-				d.logger.Error("error writing result: %s", "op", op, "err", err)
-				return
-			}
 		}
 		if foundEntries > 0 {
 			d.logger.Debug("found entries", "op", op, "count", foundEntries)
 			if d.controls != nil {
-				d.mu.Lock()
-				defer d.mu.Unlock()
 				res.SetControls(d.controls...)
 				fmt.Println(d.controls)
 			}
@@ -523,6 +535,8 @@ func (d *Directory) handleModify(t TestingT) func(w *gldap.ResponseWriter, r *gl
 		}
 		d.logger.Info("modify request", "dn", m.DN)
 
+		d.mu.Lock()
+		defer d.mu.Unlock()
 		var entries []*gldap.Entry
 		_, _, entries = find(d.t, fmt.Sprintf("(%s)", m.DN), d.users)
 		if len(entries) == 0 {
@@ -536,8 +550,6 @@ func (d *Directory) handleModify(t TestingT) func(w *gldap.ResponseWriter, r *gl
 			res.SetDiagnosticMessage(fmt.Sprintf("more than one match: %d entries", len(entries)))
 			return
 		}
-		d.mu.Lock()
-		defer d.mu.Unlock()
 		e := entries[0]
 		if entries[0].Attributes == nil {
 			e.Attributes = []*gldap.EntryAttribute{}
@@ -610,6 +622,8 @@ func (d *Directory) handleAdd(t TestingT) func(w *gldap.ResponseWriter, r *gldap
 		}
 		d.logger.Info("add request", "dn", m.DN)
 
+		d.mu.Lock()
+		defer d.mu.Unlock()
 		if found, _, _ := find(d.t, fmt.Sprintf("(%s)", m.DN), d.users); found {
 			res.SetResultCode(gldap.ResultEntryAlreadyExists)
 			res.SetDiagnosticMessage(fmt.Sprintf("entry exists for DN: %s", m.DN))
@@ -620,8 +634,6 @@ func (d *Directory) handleAdd(t TestingT) func(w *gldap.ResponseWriter, r *gldap
 			attrs[a.Type] = a.Vals
 		}
 		newEntry := gldap.NewEntry(m.DN, attrs)
-		d.mu.Lock()
-		defer d.mu.Unlock()
 		d.users = append(d.users, newEntry)
 		res.SetResultCode(gldap.ResultSuccess)
 	}
@@ -649,6 +661,8 @@ func (d *Directory) handleDelete(t TestingT) func(w *gldap.ResponseWriter, r *gl
 		}
 		d.logger.Info("delete request", "dn", m.DN)
 
+		d.mu.Lock()
+		defer d.mu.Unlock()
 		_, foundAt, _ := find(d.t, fmt.Sprintf("(%s)", m.DN), d.users)
 		if len(foundAt) > 0 {
 			if len(foundAt) > 1 {
@@ -656,8 +670,6 @@ func (d *Directory) handleDelete(t TestingT) func(w *gldap.ResponseWriter, r *gl
 				res.SetDiagnosticMessage(fmt.Sprintf("more than one match: %d entries", len(foundAt)))
 				return
 			}
-			d.mu.Lock()
-			defer d.mu.Unlock()
 			d.users = append(d.users[:foundAt[0]], d.users[foundAt[0]+1:]...)
 			res.SetResultCode(gldap.ResultSuccess)
 			return
@@ -669,8 +681,6 @@ func (d *Directory) handleDelete(t TestingT) func(w *gldap.ResponseWriter, r *gl
 				res.SetDiagnosticMessage(fmt.Sprintf("more than one match: %d entries", len(foundAt)))
 				return
 			}
-			d.mu.Lock()
-			defer d.mu.Unlock()
 			d.groups = append(d.groups[:foundAt[0]], d.groups[foundAt[0]+1:]...)
 			res.SetResultCode(gldap.ResultSuccess)
 			return
@@ -843,6 +853,8 @@ func (d *Directory) ClientKey() string {
 
 // Controls returns all the current bind controls for the Directory
 func (d *Directory) Controls() []gldap.Control {
+	d.mu.Lock()
+	defer d.mu.Unlock()
 	return d.controls
 }
 
@@ -858,6 +870,8 @@ func (d *Directory) SetControls(controls ...gldap.Control) {
 
 // Users returns all the current user entries in the Directory
 func (d *Directory) Users() []*gldap.Entry {
+	d.mu.Lock()
+	defer d.mu.Unlock()
 	return d.users
 }
 
@@ -873,6 +887,8 @@ func (d *Directory) SetUsers(users ...*gldap.Entry) {
 
 // Groups returns all the current group entries in the Directory
 func (d *Directory) Groups() []*gldap.Entry {
+	d.mu.Lock()
+	defer d.mu.Unlock()
 	return d.groups
 }
 
@@ -898,11 +914,15 @@ func (d *Directory) SetTokenGroups(tokenGroups map[string][]*gldap.Entry) {
 
 // TokenGroups will return the tokenGroup entries
 func (d *Directory) TokenGroups() map[string][]*gldap.Entry {
+	d.mu.Lock()
+	defer d.mu.Unlock()
 	return d.tokenGroups
 }
 
 // AllowAnonymousBind returns the allow anon bind setting
 func (d *Directory) AllowAnonymousBind() bool {
+	d.mu.Lock()
+	defer d.mu.Unlock()
 	return d.allowAnonymousBind
 }
 
